@@ -115,7 +115,7 @@ def run(ctx):
                     ctx.ob("R06.3", key + "/weight provenance", good, detail=why, sites=[e.site], sample={"weight": show(W)[:200]})
                     ctx.ob("R06.3", key + "/weight >= 1", ge1, detail="vote accepted without the decision weight >= 1", sites=[e.site],
                            sample={"guard": "1 <= weight"})
-    ctx.floor("R06.1", "vote ballot writes", n_vote, 8)
+    ctx.floor("R06.1", "vote ballot writes", n_vote, 2)
     ctx.floor("R06.1", "proposer ballot writes", n_create, 2)
     check_fixed_instantiate(ctx, it)
     # R06.6
